@@ -71,7 +71,16 @@ fn baseline(b: u64) -> Plan {
             for c in 0..clients {
                 plan.step(20_000 + rng.below(500), Action::ClosedLoop { sock: c, protos: vec![P::Classic, P::Ietf], count: 10_000, think_us: *rng.pick(&[2_000u64, 10_000]), timeout_ms: 200 });
             }
-            plan.step(100_000 + rng.below(400_000), Action::SetFault { kind: "file_create_err".into(), permille: 1000 });
+            if rng.chance(1, 2) {
+                plan.step(100_000 + rng.below(400_000), Action::SetFault { kind: "file_create_err".into(), permille: 1000 });
+            } else {
+                // ... or the disk is slow: every file operation stalls, a reporter round takes
+                // longer than the second it sleeps between rounds (the time the disk takes after
+                // the signal is added to the exit deadline)
+                plan.scenario = "c19.stats_slow_disk".into();
+                plan.world.faults.disk_stall = 1000;
+                plan.world.faults.disk_stall_max_ms = *rng.pick(&[700u32, 1500]);
+            }
         }
         "health_fd_exhausted" => {
             // health checks while the process is out of file descriptors (accept fails with EMFILE
@@ -221,7 +230,10 @@ fn check(plan: &Plan, out: &RunOut) -> CheckOut {
     monitor_leak(&mut co, out);
     let stats = if spec.client_stats.is_some() { "on" } else { "off" };
     let wcls = spec.workers;
-    let deadline = t_sig + 3 * dsim::SEC;
+    // (file operations that were still going on at the signal or began after it take the time the
+    // disk takes: not the program's doing)
+    let disk_ns: u64 = w.history.iter().filter_map(|r| match r.ev { dsim::Ev::DiskWait { ns } if r.t + ns > t_sig && ns > dsim::MS => Some(ns), _ => None }).sum();
+    let deadline = t_sig + 3 * dsim::SEC + disk_ns;
     // worker threads still running at the deadline
     let ended_at = |t: usize| -> Option<u64> { w.history.iter().find(|r| matches!(&r.ev, dsim::Ev::TaskEnd { task, .. } if *task == t)).map(|r| r.t) };
     let stuck_ids: Vec<usize> = b.worker_tasks.iter().map(|(t, _)| *t).filter(|t| ended_at(*t).map(|e| e > deadline).unwrap_or(true)).collect();
@@ -292,6 +304,7 @@ fn check(plan: &Plan, out: &RunOut) -> CheckOut {
         "health_fd_exhausted" => "load_health_fd_exhausted",
         "recv_errors" => "load_recv_errors",
         "stats_dir_gone" => "load_stats_dir_gone",
+        "stats_slow_disk" => "load_stats_slow_disk",
         _ => "load_flood",
     });
     co.sample = Some(serde_json::json!({
